@@ -17,8 +17,13 @@ open Spydr.Verilog Spydr.Verilog.Elab
 
 abbrev Toks := List String
 
+/-- the characters Python's `str.split()` separates at and that can occur inside a token (a token never holds a newline) -/
+def isPyWs (c : Char) : Bool := c == ' ' || c == '\t' || c == '\r' || c == '\x0b' || c == '\x0c'
+
+/-- `token.split(maxsplit=1)[0]`: the first white-space-separated word of the token (blanks AND tabs separate: a directive
+    followed by a tab and a comment on its line is still that directive) -/
 def firstWord (t : String) : String :=
-  (t.splitOn " ").head!.trimAscii.toString
+  String.ofList ((t.toList.dropWhile isPyWs).takeWhile (fun c => !isPyWs c))
 
 /-- `token.split(maxsplit=1)` has more than one part -/
 def hasRest (t : String) : Bool :=
